@@ -102,5 +102,26 @@ func runC03(c *Ctx) []Obligation {
 		"a right rotation is a left rotation with the two sides exchanged"))
 	out = append(out, c.twins(P, "child-access.twins", "(*store/iavl.Node).getLeftNode", "(*store/iavl.Node).getRightNode", []Rename{{From: "Left", To: "Right", Swap: true}, {From: "left", To: "right", Swap: true}},
 		"the right child is loaded exactly as the left child is (cached pointer, else by its own hash)"))
+	out = append(out, c.childHashFollowsChild(P)...)
+	// new and copied nodes belong to the version being written (working version + 1), a new leaf holds the
+	// key and value being set, and the recursion carries them down unchanged
+	ver := `\(tree\.ImmutableTree\.version \+ 1\)`
+	var vrows []Row
+	for _, f := range []string{"recursiveSet", "recursiveRemove", "rotateLeft", "rotateRight"} {
+		vrows = append(vrows, Row{Prop: P, ID: "version." + f + ".copies-belong-to-next-version", Fn: "(*store/iavl.MutableTree)." + f,
+			Target: CallTo(`^\(\*store/iavl\.Node\)\.clone\(`).Except(`^\(\*store/iavl\.Node\)\.clone\(.*, ` + ver + `\)$`), Why: "a node is copied into the version being written, not any other"})
+	}
+	vrows = append(vrows,
+		Row{Prop: P, ID: "set.new-leaf-holds-key-and-value", Fn: "(*store/iavl.MutableTree).recursiveSet",
+			Target: CallTo(`^store/iavl\.NewNode\(`).Except(`^store/iavl\.NewNode\(key, value, ` + ver + `\)$`), Why: "the leaf created for a set holds that key, that value and the version being written"},
+		Row{Prop: P, ID: "set.recursion-carries-key-and-value", Fn: "(*store/iavl.MutableTree).recursiveSet",
+			Target: CallTo(`^\(\*store/iavl\.MutableTree\)\.recursiveSet\(`).Except(`^\(\*store/iavl\.MutableTree\)\.recursiveSet\(tree, \(\*store/iavl\.Node\)\.get(Left|Right)Node\(\(\*store/iavl\.Node\)\.clone\(node, ` + ver + `\), tree\.ImmutableTree\), key, value, orphans\)$`),
+			Why:    "the recursion descends into a child of the copy with the same key, value and orphan list"},
+		Row{Prop: P, ID: "set.descends-left-for-smaller-keys", Fn: "(*store/iavl.MutableTree).recursiveSet", Assume: []Lit{F(`^\(\*store/iavl\.Node\)\.isLeaf\(node\)$`), T(`^lt\(bytes\.Compare\(key, \(\*store/iavl\.Node\)\.clone\(node, ` + ver + `\)\.key\), 0\)$`)},
+			Target: CallTo(`getRightNode\(`), Why: "a key below the separator goes into the left subtree"},
+		Row{Prop: P, ID: "set.descends-right-otherwise", Fn: "(*store/iavl.MutableTree).recursiveSet", Assume: []Lit{F(`^\(\*store/iavl\.Node\)\.isLeaf\(node\)$`), F(`^lt\(bytes\.Compare\(key, \(\*store/iavl\.Node\)\.clone\(node, ` + ver + `\)\.key\), 0\)$`)},
+			Target: CallTo(`getLeftNode\(`), Why: "a key at or above the separator goes into the right subtree"},
+	)
+	out = append(out, c.Rows(vrows)...)
 	return out
 }
